@@ -22,6 +22,7 @@ structure Rep where
   headN   : Nat               -- number in volume-head-NNN.img
   ckpt    : String            -- Info.Checkpoint
   rebuilding : Bool
+  maxChain : Nat              -- types.MaxChainLength (0 = the built-in 1024)
   srcRev  : Nat               -- during a rebuild, after the swap: the source's revision counter
   rb      : Nat               -- rebuild phase of the harness protocol: 0 none, 1 begun, 2 reloaded, 3 promoted
 
@@ -51,6 +52,8 @@ inductive RepOp where
   | lunmap                                -- Server.UpdateLUNMap
   | rbPromote                             -- VerifyRebuildReplica: mode RW, counter equalised
   | rbEnd                                 -- the controller shuts down: every replica is closed
+  | maxChainSet (n : Nat)                 -- MAX_CHAIN_LENGTH
+  | replace (target source : String)      -- ReplaceDisk (legacy deletion step; only ever sent in RW)
   | clone (name : String)                 -- a replica of a new volume is made as a clone of snapshot `name`
 
 inductive RepOut where
@@ -65,7 +68,7 @@ namespace Rep
 
 def init (bs nb : Nat) : Rep :=
   { dd := DD.init bs nb, names := [], recs := [], orphans := [], isOpen := true, mode := .init, rev := 1,
-    headN := 0, ckpt := "", rebuilding := false, srcRev := 0, rb := 0 }
+    headN := 0, ckpt := "", rebuilding := false, maxChain := 0, srcRev := 0, rb := 0 }
 
 /-- payload of `w off len tag` at absolute unit `u` -/
 def payload (off tag : Nat) (u : Nat) : Nat := tag * 1000000 + (u - off) + 1
@@ -78,6 +81,8 @@ def indexOf (r : Rep) (n : String) : Nat :=
 
 /-- `readDiskData` on every construct: a recorded counter of at most 1 is replaced by the current one -/
 def bumpRecs (r : Rep) : List Nat := r.recs.map fun x => if x ≤ 1 then r.rev else x
+
+def chainLimit (r : Rep) : Nat := if r.maxChain = 0 then 1024 else r.maxChain
 
 def inVolume (r : Rep) (off len : Nat) : Bool := off + len ≤ r.dd.nb * r.dd.bs
 
@@ -104,6 +109,7 @@ def step (r : Rep) : RepOp → Rep × RepOut
     ({ r with dd := dd' }, .data ((List.range len).map fun i => f (off + i)))
   | .snap n user =>
     if !r.isOpen then (r, .refused)
+    else if r.dd.top + 2 > r.chainLimit then (r, .refused)     -- createDisk: "Too many active disks"
     else if r.indexOf n ≠ 0 then (r, .refused)
     else if r.orphans.contains n then
       -- linkDisk fails on the stale file and the cleanup removes it
@@ -140,6 +146,9 @@ def step (r : Rep) : RepOp → Rep × RepOut
               orphans := r.orphans ++ r.names.drop k, headN := r.headN + 1 }, .ok)
   | .reopen pre =>
     if !r.isOpen then (r, .refused) else
+    -- openLiveChain: "Live chain is too long" (unreachable unless the limit was lowered: createDisk
+    -- refuses earlier)
+    if r.dd.top > r.chainLimit then ({ r with dd := r.dd.dropHoles, isOpen := false, mode := .init }, .refused) else
     ({ r with dd := r.dd.reopen pre, mode := .init, recs := r.bumpRecs }, .ok)
   | .reload pre =>
     if !r.isOpen then (r, .refused) else
@@ -148,6 +157,7 @@ def step (r : Rep) : RepOp → Rep × RepOut
     if !r.isOpen then (r, .ok) else ({ r with dd := r.dd.dropHoles, isOpen := false, mode := .init }, .ok)
   | .open_ pre =>
     if r.isOpen then (r, .refused) else
+    if r.dd.top > r.chainLimit then (r, .refused) else
     ({ r with dd := r.dd.reopen pre, isOpen := true, mode := .init, recs := r.bumpRecs }, .ok)
   | .resize nb =>
     if !r.isOpen || nb < r.dd.nb then (r, .refused) else ({ r with dd := r.dd.resize nb }, .ok)
@@ -179,6 +189,9 @@ def step (r : Rep) : RepOp → Rep × RepOut
     -- all three replicas are RW again: UpdateCheckpoint records the newest snapshot everywhere
     ({ r with mode := .rw, rev := r.srcRev, rb := 3,
               ckpt := match r.names.getLast? with | some n => "volume-snap-" ++ n ++ ".img" | none => "" }, .ok)
+  | .maxChainSet n => ({ r with maxChain := n }, .ok)
+  | .replace _ _ =>
+    if !r.isOpen || r.mode ≠ .rw then (r, .refused) else (r, .inadmissible)
   | .clone n =>
     if !r.isOpen || r.rb ≠ 0 then (r, .refused) else
     let k := r.indexOf n
